@@ -329,6 +329,11 @@ def run_tasks(mod, tasks, tier, seed, workers=None):
     workers = workers or int(os.environ.get('VERIF_WORKERS', 0)) or \
         min(16, os.cpu_count() or 1)
     indexed = list(enumerate(tasks))
+    cost = getattr(mod, 'task_cost', None)
+    if cost:
+        # longest tasks first (dispatch order only: results are merged by
+        # task index, so the outcome does not depend on it)
+        indexed.sort(key=lambda it: -cost(it[1]))
     results = []
     if workers <= 1 or len(indexed) <= 1:
         results = [_run_one(t) for t in indexed]
